@@ -36,6 +36,7 @@ func c06E2EJob(tier string) *SeqJob {
 		{tag: true, tags: map[string]string{"k!": "v?"}},
 		{tag: true, tags: map[string]string{"ok": "1.5"}},
 		{tag: true, tags: map[string]string{"\xff": "€"}},
+		{tag: true, tags: map[string]string{"s.s": "s.s"}}, // one raw string as subscope name, tag key and tag value
 	}
 	depth := tierInt(tier, 2, 3)
 	run := func(ci int, cached bool, seq []int) (string, string, int) {
@@ -142,6 +143,75 @@ func c06E2EJob(tier string) *SeqJob {
 			seq = append(seq, k)
 		}
 		return guard(func() (string, string) { a, b, _ := run(ci, cached, seq); return a, b })
+	}
+	return j
+}
+
+// c06RolesJob: Name, Key and Value have their own character sets; every call
+// history up to a depth over (role, string) pairs on ONE sanitizer is compared
+// with the per-role reference (a sanitizer must not remember across roles or calls).
+func c06RolesJob(tier string) *SeqJob {
+	cfgs := []struct {
+		name string
+		o    tally.SanitizeOptions
+	}{
+		{"m3-default", m3.DefaultSanitizerOpts},
+		{"name a-z / key 0-9 / value A-Z repl _", tally.SanitizeOptions{
+			NameCharacters:  tally.ValidCharacters{Ranges: []tally.SanitizeRange{{'a', 'z'}}},
+			KeyCharacters:   tally.ValidCharacters{Ranges: []tally.SanitizeRange{{'0', '9'}}},
+			ValueCharacters: tally.ValidCharacters{Ranges: []tally.SanitizeRange{{'A', 'Z'}}}, ReplacementCharacter: '_'}},
+	}
+	strs := []string{"a.b", "a_b", "aZ9", "é.", ""}
+	roles := []string{"Name", "Key", "Value"}
+	var alphabet []string
+	for _, r := range roles {
+		for _, s := range strs {
+			alphabet = append(alphabet, fmt.Sprintf("%s %q", r, s))
+		}
+	}
+	depth := tierInt(tier, 3, 4)
+	exec := func(ci int) func(hist []int) (string, string, string, int) {
+		return func(hist []int) (cl, det, key string, steps int) {
+			cl, det = guard(func() (string, string) {
+				c := cfgs[ci]
+				san := tally.NewSanitizer(c.o)
+				for _, op := range hist {
+					role, str := roles[op/len(strs)], strs[op%len(strs)]
+					var got, want string
+					switch role {
+					case "Name":
+						got, want = san.Name(str), refSanitize(c.o.NameCharacters, c.o.ReplacementCharacter, str)
+					case "Key":
+						got, want = san.Key(str), refSanitize(c.o.KeyCharacters, c.o.ReplacementCharacter, str)
+					default:
+						got, want = san.Value(str), refSanitize(c.o.ValueCharacters, c.o.ReplacementCharacter, str)
+					}
+					steps++
+					if got != want {
+						return "role-result-depends-on-history", fmt.Sprintf("[%s] after %v: %s(%q) = %q, want %q", c.name, histLabels(alphabet, hist), role, str, got, want)
+					}
+				}
+				return "", ""
+			})
+			key = fmt.Sprint(ci, hist) // a sanitizer may remember: no merging
+			return
+		}
+	}
+	j := &SeqJob{Property: "C06", Name: "name-key-value-call-histories"}
+	j.Run = func(ctx *SeqCtx) {
+		for ci := range cfgs {
+			bfs(ctx, alphabet, depth, exec(ci))
+			if ctx.viol != nil {
+				ctx.viol.Ops = append([]string{fmt.Sprint(ci)}, ctx.viol.Ops...)
+				return
+			}
+		}
+	}
+	j.Replay = func(ops []string) (string, string) {
+		var ci int
+		fmt.Sscan(ops[0], &ci)
+		c, d, _, _ := exec(ci)(opIndex(alphabet, ops[1:]))
+		return c, d
 	}
 	return j
 }
